@@ -4,6 +4,7 @@ import (
 	cryptorand "crypto/rand"
 	"fmt"
 	"net"
+	"sync"
 	"time"
 
 	"hop.computer/hop/authkeys"
@@ -214,3 +215,70 @@ func WithTimeout(r *Run, d time.Duration, f func()) bool {
 }
 
 func newX25519() *keys.X25519KeyPair { return keys.GenerateNewX25519KeyPair() }
+
+// HandleRegistry accepts every connection the server offers and lets the
+// harness fetch the handle that belongs to a given client (by session id).
+type HandleRegistry struct {
+	mu      sync.Mutex
+	byID    map[[4]byte]*transport.Handle
+	arrived chan struct{}
+	All     []*transport.Handle
+}
+
+// NewHandleRegistry starts the accept loop.
+func NewHandleRegistry(r *Run, srv *transport.Server) *HandleRegistry {
+	g := &HandleRegistry{byID: map[[4]byte]*transport.Handle{}, arrived: make(chan struct{}, 1)}
+	r.Go(func() {
+		for {
+			h, err := srv.AcceptTimeout(24 * time.Hour)
+			if err != nil {
+				return
+			}
+			vs, _ := h.VerifSession()
+			g.mu.Lock()
+			g.byID[vs.ID] = h
+			g.All = append(g.All, h)
+			g.mu.Unlock()
+			select {
+			case g.arrived <- struct{}{}:
+			default:
+			}
+		}
+	})
+	return g
+}
+
+// For waits up to d for the handle of client c's session.
+func (g *HandleRegistry) For(c *transport.Client, d time.Duration) *transport.Handle {
+	vs, ok := c.VerifSession()
+	if !ok {
+		return nil
+	}
+	return g.ByID(vs.ID, d)
+}
+
+// ByID waits up to d for the handle with the given session id.
+func (g *HandleRegistry) ByID(id [4]byte, d time.Duration) *transport.Handle {
+	deadline := time.NewTimer(d)
+	defer deadline.Stop()
+	for {
+		g.mu.Lock()
+		h := g.byID[id]
+		g.mu.Unlock()
+		if h != nil {
+			return h
+		}
+		select {
+		case <-g.arrived:
+		case <-deadline.C:
+			return nil
+		}
+	}
+}
+
+// Count returns the number of connections offered so far.
+func (g *HandleRegistry) Count() int {
+	g.mu.Lock()
+	defer g.mu.Unlock()
+	return len(g.All)
+}
